@@ -15,6 +15,58 @@ func init() {
 	vxRegister("VX_C10_RewrittenName", VX_C10_RewrittenName)
 	vxRegister("VX_C15_StatusThroughPreSession", VX_C15_StatusThroughPreSession)
 	vxRegister("VX_C07_LostWhileEstablishing", VX_C07_LostWhileEstablishing)
+	vxRegister("VX_C03_HandlerOutlastsContextAge", VX_C03_HandlerOutlastsContextAge)
+}
+
+// VX_C03_HandlerOutlastsContextAge: the peer is configured with a context age
+// (the time limit of handling one CALL) and a handler takes longer than that.
+// The CALL is handled once; it is answered exactly once (with the handler's
+// reply or an error) or the session is disconnected - it is not silently
+// dropped on a connection that stays up - and a later CALL is served normally.
+// args: none
+func VX_C03_HandlerOutlastsContextAge(args []int) {
+	age := 60 * time.Millisecond
+	if vxSymbolic() {
+		age = time.Hour // virtual clock: the harness decides when the age has passed
+	}
+	p := NewPeer(PeerConfig{DefaultContextAge: age})
+	runs := 0
+	route := &vxRoute{name: "slow"}
+	route.fn = func(ctx *handlerCtx, arg []byte) (interface{}, *Status) {
+		runs++
+		if runs == 1 {
+			vxFireTimers() // this invocation outlasts the context age
+		}
+		return arg, nil
+	}
+	vxRouteCall(p, route)
+	conn := newVxConn("srv:1", "cli:2")
+	s, st := p.ServeConn(conn)
+	vxAssume(st.OK())
+	conn.feed(vxFrame(TypeCall, 5, "/slow", []byte("x")))
+	vxWaitIdle()
+	vxWaitIdle()
+	vxAssert(runs == 1, "the CALL is handled once")
+	answered := 0
+	for _, w := range conn.writes {
+		if m, err := vxParse(w); err == nil && m.Mtype() == TypeReply && m.Seq() == 5 {
+			answered++
+		}
+	}
+	vxAssert(answered <= 1, "never answered twice")
+	vxAssert(answered == 1 || !s.Health(), "a CALL whose handler outlasts the context age is answered (or the session disconnected), not silently dropped on a connection that stays up")
+	if s.Health() {
+		conn.feed(vxFrame(TypeCall, 6, "/slow", []byte("y")))
+		vxWaitIdle()
+		ok := false
+		for _, w := range conn.writes {
+			if m, err := vxParse(w); err == nil && m.Mtype() == TypeReply && m.Seq() == 6 && m.StatusOK() {
+				ok = true
+			}
+		}
+		vxAssert(ok, "a later CALL on the session is served normally")
+	}
+	vxCover("c03.handler-outlasts-age")
 }
 
 // VX_C07_LostWhileEstablishing: the remote end is already gone (or sends one
